@@ -144,6 +144,8 @@ func init() {
 			ruleReadersIgnoreBuffers(r)
 			rulePool(r)
 			ruleUnits(r, "C02.units", unitsText, 5, reserveFns)
+			ruleMarkerArms(r)
+			ruleStorageArms(r)
 		}})
 	register(&PropSpec{ID: "C03",
 		Explanation: "Bitmap indexes equal their predicate — structural part. (C03.arms) arm effects of columnIndex.Apply (Put: predicate, set on true edge / clear on false edge; Delete: clear); (C03.twopass) computed columns get a fresh pass over the merge-rewritten buffer after the column itself; (C03.rowdelete) row markers reach every registry entry; (C03.register) computed columns are registered under their own name and in the target's list, and dropped from both; (C03.backfill) index creation back-fills from every block; (C07.abs) every Snapshot implementation emits absolute offsets (the back-fill input); (C03.order) no reader method appends to the buffer being replayed; (C11.order) updates are applied before markers so a put+delete of one row leaves no index bit; (C01.arms) every storage Merge arm swaps the delta for the final value." + staticNote,
@@ -190,6 +192,7 @@ func init() {
 			ruleReplayOrder(r)
 			ruleReaderState(r)
 			ruleUnits(r, "C05.units", unitsText, 3, fnsel("(*commit.", "(commit.", "commit."))
+			ruleSerialFields(r)
 		}})
 	register(&PropSpec{ID: "C06",
 		Explanation: "Replica convergence — structural part. (L5.emit) every append to logger/recorder happens under the block's exclusive latch, so per block emission order = apply order for all schedules; (C06.emitorder) emission after updates and markers were applied (merges rewritten); (C06.emitfields) the emitted commit names this block, the drawn id and the transaction's buffers; (C06.clone, C05.copy) the channel logger sends a deep clone, the file logger serialises synchronously; (C06.replay) Replay marks the commit's block and queues every non-empty buffer through a transaction; (C03.order) no replay-time append reorders operations; (C01.arms) Merge arms swap in the final value." + staticNote,
@@ -206,6 +209,15 @@ func init() {
 			ruleStorageArms(r)
 			ruleCommitUpdates(r) // primary and replica maintain computed columns the same way
 			ruleUnits(r, "C06.units", unitsText, 2, fnsel("(*column.Collection).Replay", "(*column.Txn).commit", "(*column.Txn).rangeWrite"))
+			ruleSerialFields(r)
+			ruleCodecFlags(r)
+			ruleVarint(r)
+			ruleHeaders(r)
+			ruleIndexArms(r)
+			ruleKeyArms(r)
+			ruleMarkerArms(r)
+			rulePool(r)
+			ruleRowDelete(r)
 		}})
 	register(&PropSpec{ID: "C07",
 		Explanation: "Restore reproduces the collection — structural part. (C07.abs) offset-kind analysis of every Snapshot implementation, the state writer and PutBitmap: absolute offsets into the buffer, relative into per-block storage; (C07.count) the announced buffer count and the buffers written use one predicate; (C13.whole) readState applies each block through its own transaction and only when the block was read completely; (C11.markers) insert markers rebuild the fill list and the count; (U.defs) block arithmetic." + staticNote,
@@ -218,6 +230,16 @@ func init() {
 			ruleMarkerArms(r)
 			ruleUnitDefs(r)
 			ruleStateVersion(r)
+			ruleSerialFields(r)
+			ruleCodecFlags(r)
+			ruleVarint(r)
+			ruleHeaders(r)
+			ruleStorageArms(r)
+			ruleIndexArms(r)
+			ruleKeyArms(r)
+			ruleCommitUpdates(r)
+			ruleGrow(r)
+			ruleReplay(r)
 		}})
 	register(&PropSpec{ID: "C08",
 		Explanation: "Snapshot under concurrent commits is a consistent cut — structural part. (L5.id) the commit id is drawn, stored and handed on while the block's exclusive latch is held (so per block id order = apply order for all schedules); (L5.emit) the recorder append and the recording test happen under that latch; (C08.read) the snapshot reads id, fill slice and columns of a block under the block latch and the collection mutex; (C08.order) recorder opened before the state is written, log copied after; (C08.replay) restore replays exactly the commits whose id is not below the block's stored id; (C02.isolation) the fill slice read contains only committed rows; (L4) commit-id table discipline." + staticNote,
@@ -232,6 +254,12 @@ func init() {
 			ruleIsolation(r)
 			ruleL4(r)
 			ruleUnits(r, "C08.units", unitsText, 2, anyOf(snapshotFns, fnsel("(*column.Txn).rangeWrite", "(*column.Collection).readChunk")))
+			ruleWholeCommits(r)
+			ruleSnapshotCount(r)
+			ruleReplay(r)
+			ruleCommitOrder(r, false, true)
+			ruleMarkerArms(r)
+			ruleL1(r, backfillExempt)
 		}})
 	register(&PropSpec{ID: "C09",
 		Explanation: "Concurrent merges are never lost — structural part. (C01.arms …/Merge/rmw) in every Merge arm the old value is loaded from the element that is stored, merged with the delta read from the buffer, and swapped back into the buffer, inside one Apply body; (L1) every Apply runs under the block's exclusive latch on every call path, so the read-modify-write is atomic per block for all schedules; (C09.queue) every Merge accessor queues the delta and reads nothing." + staticNote,
@@ -283,6 +311,7 @@ func init() {
 			ruleKeyAtomic(r)
 			ruleCommitOrder(r, true, false)
 			ruleUnits(r, "C12.units", unitsText, 4, anyOf(applyUnitFns("key"), fnsel("(*column.Txn).InsertKey", "(*column.Txn).UpsertKey", "(*column.Txn).QueryKey", "(*column.Txn).DeleteKey", "(column.Row).Key", "(column.Row).SetKey")))
+			ruleRowDelete(r)
 		}})
 	register(&PropSpec{ID: "C13",
 		Explanation: "Truncated files never restore silently wrong state — structural skeleton only (the property is mostly about bytes and not applicable to static analysis). (C13.err) error-flow: no error of a read is discarded in Commit.ReadFrom, Buffer.ReadFrom, readChunksFrom, Log.Range, readState, Restore (one exception with reason); (C13.whole) the log callback runs only for completely decoded commits, a block commits only after all its buffers were read, the log is touched only after the state was read." + staticNote,
@@ -294,6 +323,9 @@ func init() {
 			ruleWholeCommits(r)
 			ruleRestoreGuard(r)
 			ruleExactReads(r)
+			ruleSnapshotCount(r)
+			ruleReplay(r)
+			ruleSerialFields(r)
 		}})
 	register(&PropSpec{ID: "C14",
 		Explanation: "A failed snapshot reports the error and leaves the collection usable — structural part. (C14.pair) must-pass-through on Snapshot's flow graph: after the recorder was opened every exit uninstalls it, closes the temporary log and removes its file; losing the installation race cleans up; (C14.err) error-flow: no error on the state-writing path is discarded." + staticNote,
@@ -317,6 +349,9 @@ func init() {
 			ruleEmitFields(r)
 			ruleCopies(r)
 			ruleUnits(r, "C15.units", unitsText, 1, fnsel("(*column.Txn).commit", "(*column.Txn).rangeWrite"))
+			ruleQueryPaths(r)
+			rulePool(r)
+			ruleCommitOrder(r, false, true)
 		}})
 	register(&PropSpec{ID: "C16",
 		Explanation: "Sorted-index iteration complete and ordered — structural part. (C16.cmp) the ordering handed to the tree reads every field of the item; (C16.arms) arm effects of columnSortIndex.Apply; (C16.scan) Ascend scans ascending and filters by the selection; (C04.cursor) cursor positioned; (C01.alias) keys are copies; (C11.order) a put+delete of one row leaves no entry." + staticNote,
@@ -330,6 +365,11 @@ func init() {
 			ruleAlias(r, "sortindex")
 			ruleCommitOrder(r, true, false)
 			ruleUnits(r, "C16.units", unitsText, 2, anyOf(applyUnitFns("sortindex"), fnsel("(*column.Txn).Ascend")))
+			ruleCommitUpdates(r)
+			ruleRowDelete(r)
+			ruleRegister(r)
+			ruleBackfill(r)
+			ruleRegistryLists(r)
 		}})
 	register(&PropSpec{ID: "C17",
 		Explanation: "Rows expire only after their deadline — structural part only (all timing is not applicable). (C17.guard) edge-dominance in the cleanup: DeleteAt(row) only under ok ∧ now.After(deadline); ExpiresAt/TTL report a deadline only when stored and non-zero; selection With(expire); (C17.write) writers store now+ttl or 0, Extend is a queued merge; (C17.wiring) expire column created at construction, one cleanup goroutine with the configured interval that stops on close; (C09.queue) merge accessors queue deltas." + staticNote,
@@ -374,5 +414,6 @@ func init() {
 			ruleRegister(r)
 			ruleRegistryLists(r)
 			rulePool(r)
+			ruleQueryPaths(r)
 		}})
 }
